@@ -20,7 +20,7 @@ struct RV {
 };
 static RV num(long double v, int kind) {
     RV r;
-    if (!(fabsl(v) < 9.0e18L)) {
+    if (!((kind == 0 && v >= 0 && v <= 18446744073709551615.0L) || fabsl(v) < 9.0e18L)) {
         r.unspec = true; // outside 64 bits: the property's restriction
         return r;
     }
@@ -274,7 +274,9 @@ static std::vector<Operand> core_operands() {
     return {{"0", num(0, 0)},      {"1", num(1, 0)},         {"2", num(2, 0)},         {"3", num(3, 0)},        {"7", num(7, 0)},
             {"10", num(10, 0)},    {"-1", num(-1, 1)},       {"-2", num(-2, 1)},       {"0.5", num(0.5L, 2)},   {"2.5", num(2.5L, 2)},
             {"1.25", num(1.25L, 2)}, {"5e-1", num(0.5L, 2)}, {"1e1", num(10, 2)},      {"(1+2)", num(3, 0)},    {"(2*3)", num(6, 0)},
-            {"(1-3)", num(-2, 1)}, {"( 7 / 2 )", num(3.5L, 2)}, {"((2))", num(2, 0)}};
+            {"(1-3)", num(-2, 1)}, {"( 7 / 2 )", num(3.5L, 2)}, {"((2))", num(2, 0)},
+            // a whole negative REAL (kind matters for ^), and an unsigned literal above 2^63
+            {"(-4/2)", num(-2, 2)}, {"-2.0", num(-2, 2)}};
 }
 static const char *VALUE_JSON = R"({"u":5,"i":-4,"r":1.5,"ns":"12","t":true,"f":false,"nl":null,"tx":"abc","es":"","o":{"k":2},"arr":[3,4]})";
 static std::vector<Operand> var_operands() {
@@ -426,7 +428,7 @@ int main(int argc, char **argv) {
         vx::Plan  plan;
         const int nops = atoi(a.get("ops", "3").c_str());
         plan.engine = "langx";
-        plan.rule = "every flat expression with <=" + std::to_string(nops) + " operators over the 16 documented operators: (a) operands from 18 "
+        plan.rule = "every flat expression with <=" + std::to_string(nops) + " operators over the 16 documented operators: (a) operands from 20 "
                     "literal/parenthesised forms (integers, negatives, decimals, exponent form, nested parentheses) chosen by a covering "
                     "rotation for 3-4 operators and exhaustively for <=2; (b) <=2 operators with every pair/triple of 12 variable operands "
                     "(unsigned, negative, real, numeric string, true, false, null, text, empty, missing, nested) and literals; (c) == / != with "
@@ -611,6 +613,42 @@ int main(int argc, char **argv) {
             plan.rule += " || every operator sequence of length " + std::to_string(seqlen) + " (16^" + std::to_string(seqlen) + ") with three fixed operand assignments";
         }
         {
+            // unsigned literals above 2^63 under the operators that are defined on the unsigned kind (+ - * / and printing);
+            // comparisons, remainder and bitwise operators work on the signed view and are outside the 64-bit restriction
+            vx::Stage s4;
+            s4.name   = "large-unsigned";
+            s4.chunks = 1;
+            s4.fn     = [](int64_t, vx::Ctx &ctx) {
+                static Rig      rig;
+                const Operand   big{"10000000000000000000", num(10000000000000000000.0L, 0)};
+                const Operand   big2{"18446744073709551615", num(18446744073709551615.0L, 0)};
+                static std::vector<Operand> small = {{"1", num(1, 0)}, {"5", num(5, 0)}, {"2.5", num(2.5L, 2)}, {"0", num(0, 0)}};
+                for (const Operand *b : {&big, &big2}) {
+                    if (ctx.next()) {
+                        ctx.acc.count("states");
+                        judge(b->text, RSet{b->val}, rig, ctx, false);
+                    }
+                    for (auto &sm : small) {
+                        for (int op : {10, 11, 12, 13}) { // + - * /
+                            for (int swap = 0; swap < 2; swap++) {
+                                if (!ctx.next()) {
+                                    continue;
+                                }
+                                const Operand *x = swap ? &sm : b, *y = swap ? b : &sm;
+                                std::string    e = std::string(x->text) + " " + OPS[op] + " " + y->text;
+                                if (ctx.want_desc()) {
+                                    ctx.describe(e);
+                                }
+                                ctx.acc.count("states");
+                                judge(e, RSet{apply(op, x->val, y->val)}, rig, ctx, false);
+                            }
+                        }
+                    }
+                }
+            };
+            plan.stages.push_back(s4);
+        }
+        {
             // negative base to a negative even exponent: judged here, once per operand form
             vx::Stage s2;
             s2.name   = "negative-base-negative-exponent";
@@ -643,7 +681,9 @@ int main(int argc, char **argv) {
                 p.harness_error = "more than half of the generated expressions are not accepted by the parser: vacuous";
             }
         };
-        plan.assumptions = {"operands are dyadic rationals with small numerators: IEEE arithmetic is exact and nothing overflows 64 bits",
+        plan.assumptions = {"operands are dyadic rationals with small numerators: IEEE arithmetic is exact and nothing overflows 64 bits; the evaluator compares, "
+                            "takes remainders and bit operations on the signed 64-bit view, so operands of 2^63 and above are judged only under + - * / "
+                            "and printing (dedicated stage)",
                             "a leading sign adjacent to a literal is part of the literal (-3^2 = 9, pinned by EvaluateTest)",
                             "0^0, 0^negative, 0^fraction, a base strictly between 0 and 1 (pinned as 'no value' by EvaluateTest 19) and bitwise operators on "
                             "reals/negatives are not determined by the document: not judged",
